@@ -50,8 +50,8 @@ def _rand_entry(rng, t, big):
             e += rng.randint(1, 4)
         return [s, e, rng.choice(["n", "m", "", "a"])]
     ts = [e[0] for e in t["entries"]] or [0]
-    x = rng.choice(ts) if rng.random() < 0.4 else rng.randint(-3, big + 5)
-    return [x, rng.choice(["n", "m", ""])]
+    x = rng.choice(ts) if rng.random() < (0.8 if len(ts) > 60 else 0.4) else rng.randint(-3, big + 5)
+    return [x, rng.choice(["n", "m", "", "zz", "A"])]
 
 
 def generate(tier, rng):
